@@ -248,6 +248,22 @@ def _text_class(o):
     return ('braces' if ('{' in s or '}' in s) else 'plain') + ('+percent' if '%' in s else '')
 
 
+_MULTI = []
+
+
+def _load_multi_backend():
+    if not _MULTI:
+        import importlib.machinery
+        import importlib.util
+        path = os.path.join(common.VERIF, 'harness', 'multi.stoneg.py')
+        loader = importlib.machinery.SourceFileLoader('vf_multi_stoneg', path)
+        spec = importlib.util.spec_from_loader('vf_multi_stoneg', loader)
+        mod = importlib.util.module_from_spec(spec)
+        loader.exec_module(mod)
+        _MULTI.append(mod)
+    return _MULTI[0]
+
+
 def run_manifests(res, tmp, seed, specs, idx, n):
     from stone.frontend.frontend import specs_to_ir
     from stone.compiler import BackendException
@@ -293,6 +309,30 @@ def run_manifests(res, tmp, seed, specs, idx, n):
                 res.see('manifest', cfg, 'both_raise')
             shutil.rmtree(real_dir, ignore_errors=True)
             shutil.rmtree(man_dir, ignore_errors=True)
+        # a backend module holding several concrete Backend classes: the compiler runs all of them, and
+        # the manifest must list the files of all of them
+        from stone.compiler import Compiler
+        multi = _load_multi_backend()
+        real_dir, man_dir = os.path.join(base, 'real_multi'), os.path.join(base, 'man_multi')
+        try:
+            Compiler(specs_to_ir(files), multi, [], real_dir).build()
+            c = Compiler(specs_to_ir(files), multi, [], man_dir, output_manifest=True)
+            c.build()
+            res.evaluations += 1
+            res.count('manifest_comparisons')
+            actual = sorted(B.read_tree(real_dir))
+            listed = sorted(c.output_manifest())
+            created = sorted(B.read_tree(man_dir)) if os.path.isdir(man_dir) else []
+            if listed != actual or created:
+                res.violation({'kind': 'manifest_differs_from_real_outputs', 'backend': 'several_backend_classes'},
+                              {'only_listed': sorted(set(listed) - set(actual))[:5],
+                               'only_created': sorted(set(actual) - set(listed))[:5], 'created': created[:3]},
+                              {'workload': 'manifest_multi', 'files': files})
+            else:
+                res.see('manifest', 'several_backend_classes', 'agrees', min(len(actual), 5))
+        except BackendException as e:
+            res.violation({'kind': 'multi_backend_module_raised'}, {'error': e.traceback[-300:]},
+                          {'workload': 'manifest_multi', 'files': files})
         # through the command line, one backend per spec
         cfgname = B.ORDER[ci % len(B.ORDER)]
         modname, args = B.CONFIGS[cfgname]
